@@ -22,6 +22,7 @@ import zipfile
 
 from sim.runner import new_result, scratch_root
 from sim.seams import patched, import_typhon, fresh_dir
+from sim.seams import deterministic_tempnames
 from sim import digest_of
 
 PROPERTY_ID = "C12"
@@ -89,6 +90,11 @@ class Injected(OSError):
     pass
 
 
+class InjectedInterrupt(KeyboardInterrupt):
+    """Ctrl-C / SIGINT arriving inside an I/O step: an exception, but not an
+    Exception."""
+
+
 # --------------------------------------------------------------- fault plane
 class Plane:
     def __init__(self, fault=None):
@@ -127,6 +133,8 @@ class Plane:
                     return "short"
                 return None
             self.fired = (k, op, label, kind)
+            if kind == "INTR":
+                raise InjectedInterrupt(f"injected interrupt at step {k} ({op} {label})")
             code = errno.EIO if kind == "EIO" else errno.ENOSPC
             raise Injected(code, f"injected {kind} at step {k} ({op} {label})")
         return None
@@ -367,6 +375,8 @@ def gen_workload(tape):
             # a file already sitting at the explicit target (it "will be
             # overwritten"), longer than the decompressed content
             blk["target_prefilled"] = blk["target"] and tape.flag("prefill", 1, 2)
+        # explicit arguments passed by position, as in the docstring examples
+        blk["positional"] = tape.flag("positional", 1, 3)
         blocks.append(blk)
     w["blocks"] = blocks
     return w
@@ -496,7 +506,8 @@ class Exec:
             yielded = None
             fired_before = self.plane.fired
             try:
-                with umod.compress(path, fmt=blk["fmt_arg"], tmpdir=tmpdir) as tfile:
+                with (umod.compress(path, blk["fmt_arg"], tmpdir) if blk.get("positional")
+                      else umod.compress(path, fmt=blk["fmt_arg"], tmpdir=tmpdir)) as tfile:
                     yielded = tfile
                     if body_fault == 0:
                         raise BodyError("before any write")
@@ -508,7 +519,7 @@ class Exec:
                             f.write(content[len(content) // 2:])
                     if body_fault == 2:
                         raise BodyError("after all writes")
-            except (BodyError, Injected, OSError, EOFError, zipfile.BadZipFile,
+            except (BodyError, Injected, InjectedInterrupt, OSError, EOFError, zipfile.BadZipFile,
                     lzma.LZMAError, ValueError) as e:
                 exc = e
             io_fault_here = self.plane.fired is not None and self.plane.fired is not fired_before
@@ -635,7 +646,8 @@ class Exec:
         copy_path = None
         fired_before = self.plane.fired
         try:
-            with umod.decompress(path, tmpdir=tmpdir, target=target) as dfile:
+            with (umod.decompress(path, tmpdir, target) if blk.get("positional")
+                  else umod.decompress(path, tmpdir=tmpdir, target=target)) as dfile:
                 copy_path = dfile
                 if body_fault == 0:
                     raise BodyError("before reading")
@@ -643,7 +655,7 @@ class Exec:
                     got = f.read()
                 if body_fault == 1:
                     raise BodyError("after reading")
-        except (BodyError, Injected, OSError, EOFError, zipfile.BadZipFile,
+        except (BodyError, Injected, InjectedInterrupt, OSError, EOFError, zipfile.BadZipFile,
                 lzma.LZMAError, ValueError, KeyError, Exception) as e:  # noqa
             exc = e
         io_fault_here = self.plane.fired is not None and self.plane.fired is not fired_before
@@ -739,7 +751,7 @@ class Exec:
                         st0.close()
                     finally:
                         st1.close()
-        except Exception as e:  # noqa
+        except (Exception, InjectedInterrupt) as e:  # noqa
             exc = e
         io_fault_here = self.plane.fired is not None and self.plane.fired is not fired_before
         self.log.append(f"b{bi} pair {name} -> {type(exc).__name__}")
@@ -820,6 +832,7 @@ class Exec:
 # ------------------------------------------------------------------- the run
 def run_one(tape, only=None):
     _T["state"].restore()      # each run models a fresh interpreter
+    deterministic_tempnames()
     res = new_result()
     w = gen_workload(tape)
     wd = digest_of(w)
@@ -867,6 +880,8 @@ def run_one(tape, only=None):
                 kinds.append("ENOSPC")
             if op == "read":
                 kinds.append("SHORT")
+            if op in ("read", "write", "open_r", "open_w", "cctor") and k % 2 == 0:
+                kinds.append("INTR")        # sampled: every second step
             for kind in kinds:
                 plan.append(("io", k, kind))
         for bi, npos in ex0.body_points:
